@@ -1,9 +1,10 @@
 import SqiProofs.LllOps
+import SqiProofs.LllCheck
 /- Property C16 — "Lattice reduction keeps the lattice and reduces it; responses are short".
    Property theorems only (+ non-vacuity examples); lemmas live in SqiProofs/Lll*.lean, models in
    SqiModel/{Lll,Dim2}.lean (tied to the C code by the correspondence / certificate harness tools/props/c16.py). -/
 namespace SqiProps.C16
-open SqiModel.Quat SqiModel.Lll SqiProofs.LllOps
+open SqiModel.Quat SqiModel.Lll SqiProofs.LllOps SqiProofs.LllCheck
 
 /-! ## (1) the integer row operations keep the lattice — for ALL decision sequences (float-independent)
 
@@ -43,5 +44,68 @@ example :
     (∀ op ∈ ops, op.valid = true) ∧
     (run ops ⟨⟨5, 0, 0, 0⟩, ⟨3, 7, 0, 0⟩, ⟨1, 2, 3, 0⟩, ⟨4, 4, 4, 1⟩⟩).1 ≠ ⟨⟨5, 0, 0, 0⟩, ⟨3, 7, 0, 0⟩, ⟨1, 2, 3, 0⟩, ⟨4, 4, 4, 1⟩⟩ := by
   decide
+
+
+/-! ## (2) reducedness: certificate checking with a proved checker   (PARTIAL)
+
+Which operations the routine performs, and whether it terminates, is decided by GMP `mpf` floats that no exact
+model reproduces.  FULL STATEMENT (not provable about floats, and FALSE of the unchanged code for inputs whose
+float precision `2·Σ max-bitsize` is smaller than about `bitsize(q) + 2·max-bitsize`, see notes/C16.md):
+  "for every full-rank lattice `quat_lattice_lll` returns 0 and a (δ,η)-reduced basis of the same lattice".
+PROVED: the exact checker `lllCheck`, which the harness runs on EVERY C output, is sound with respect to the
+mathematical (rational Gram-Schmidt) definition of being reduced, plus the classical consequence. -/
+
+/-- `lllCheck δ η q L R = true` implies: the columns of `R` and `L` generate the same lattice, the columns of `R` are
+    linearly independent (all `|b*_i|^2 > 0`), size-reduced with `η = en/ed` and satisfy the Lovász condition with
+    `δ = dn/dd` — for the Gram-Schmidt quantities `mu`, `Bn` defined over ℚ by the textbook recursion
+    (`SqiProofs.LllCheck.gs`) for the norm form (1,1,q,q). -/
+theorem lllCheck_sound {dn dd en ed q : Int} {lat red : Mat4} (h : lllCheck dn dd en ed q lat red = true) :
+    rowSpan (toM red).transpose = rowSpan (toM lat).transpose ∧
+    (∀ i : Fin 4, 0 < Bn q (colsQ red) i) ∧
+    SizeReduced ((en : ℚ) / ed) q (colsQ red) ∧ Lovasz ((dn : ℚ) / dd) q (colsQ red) := by
+  simp only [lllCheck, Bool.and_eq_true, decide_eq_true_eq] at h
+  obtain ⟨⟨⟨⟨⟨_, hdd⟩, hed⟩, _⟩, hsame⟩, hred⟩ := h
+  refine ⟨?_, ?_⟩
+  · have := sameRowLattice_sound hsame
+    rwa [toM_transpose, toM_transpose] at this
+  · rw [colsQ_eq]
+    exact reducedRows_sound hred hdd hed
+
+/-- classical consequence: if `η² < δ` the first vector of an accepted basis satisfies
+    `|b_1|² (δ-η²)^i ≤ |b*_{i+1}|²` for every i, and `|b_1|⁸ (δ-η²)⁶ ≤ Π|b*_i|²`
+    (= Gram determinant `q² det(L)²`; that last identification is classical and NOT proved here). -/
+theorem lllCheck_first_vector_short {dn dd en ed q : Int} {lat red : Mat4}
+    (h : lllCheck dn dd en ed q lat red = true) (hη : ((en : ℚ) / ed) ^ 2 < (dn : ℚ) / dd) :
+    (∀ i : Fin 4, ((dn : ℚ) / dd - ((en : ℚ) / ed) ^ 2) ^ (i : ℕ) * formQ q (colsQ red 0) (colsQ red 0)
+        ≤ Bn q (colsQ red) i) ∧
+    ((dn : ℚ) / dd - ((en : ℚ) / ed) ^ 2) ^ 6 * (formQ q (colsQ red 0) (colsQ red 0)) ^ 4
+        ≤ Bn q (colsQ red) 0 * Bn q (colsQ red) 1 * Bn q (colsQ red) 2 * Bn q (colsQ red) 3 := by
+  obtain ⟨_, hpos, hS, hL⟩ := lllCheck_sound h
+  exact ⟨first_vector_le hS hL hpos hη, first_vector_pow_le hS hL hpos hη⟩
+
+/-- post-condition on the return value demanded by the property (and evaluated by the harness on every call):
+    rank-deficient input ⇒ `-1`; full rank ⇒ `0` and an accepted certificate. -/
+theorem lllRetCheck_sound {dn dd en ed q : Int} {lat red : Mat4} {ret : Int}
+    (h : lllRetCheck dn dd en ed q lat ret red = true) :
+    (det lat = 0 → ret = -1) ∧ (det lat ≠ 0 → ret = 0 ∧ lllCheck dn dd en ed q lat red = true) := by
+  unfold lllRetCheck at h
+  split at h
+  · rename_i hz
+    exact ⟨fun _ => by simpa using h, fun hn => absurd hz hn⟩
+  · rename_i hz
+    simp only [Bool.and_eq_true, beq_iff_eq] at h
+    exact ⟨fun hn => absurd hn hz, fun _ => h⟩
+
+/-- non-vacuity: a real output of the C routine (q = 13, lattice diag(5,7,3,1)) is accepted with the harness
+    constants δ = 98/100, η = 51/100. -/
+example : lllCheck 98 100 51 100 13 ⟨⟨5, 0, 0, 0⟩, ⟨0, 7, 0, 0⟩, ⟨0, 0, 3, 0⟩, ⟨0, 0, 0, 1⟩⟩
+    ⟨⟨0, 5, 0, 0⟩, ⟨0, 0, 7, 0⟩, ⟨0, 0, 0, 3⟩, ⟨1, 0, 0, 0⟩⟩ = true := by decide
+
+/-- the rank-deficiency clause is FALSE of the unchanged code (`lll_reports_rank_deficiency` would read: "singular
+    input ⇒ ret = -1"): witness replayed on the C code by the harness (known finding `lll:rank-deficient:ret0`):
+    q = 1, columns (0,3,0,0),(0,1,0,0),(0,4,0,0),(0,0,0,1): the C routine returns 0, which the post-condition
+    rejects. -/
+example : lllRetCheck 98 100 51 100 1 ⟨⟨0, 0, 0, 0⟩, ⟨3, 1, 4, 0⟩, ⟨0, 0, 0, 0⟩, ⟨0, 0, 0, 1⟩⟩ 0
+    ⟨⟨0, 0, 0, 0⟩, ⟨0, 0, 1, 0⟩, ⟨0, 0, 0, 0⟩, ⟨0, 0, 0, 1⟩⟩ = false := by decide
 
 end SqiProps.C16
